@@ -266,13 +266,14 @@ func ScribbleFile(f *fit.File) (touched int) {
 			}
 		}
 	}
-	walk(reflect.ValueOf(&f.FileId), 0)
-	walk(reflect.ValueOf(f.FileCreator), 0)
-	walk(reflect.ValueOf(f.TimestampCorrelation), 0)
+	// the container first: the accessors look at FileId.Type
 	for _, a := range accessors(f) {
 		if c, err := a(); err == nil && c != nil && !reflect.ValueOf(c).IsNil() {
 			walk(reflect.ValueOf(c), 0)
 		}
 	}
+	walk(reflect.ValueOf(&f.FileId), 0)
+	walk(reflect.ValueOf(f.FileCreator), 0)
+	walk(reflect.ValueOf(f.TimestampCorrelation), 0)
 	return touched
 }
